@@ -54,6 +54,56 @@ Fixpoint do_final_map (dofix : bool) (m : smap) (l : list (commented expr)) : sm
   | Cm _ s _ :: r => do_final_map dofix (do_step_map dofix m s) r
   end.
 
+(* String.  The grammar has no escape sequences: string = PUSH(dquote | squote) (!PEEK ANY)* POP.
+   Repaired emission: the quote character that does not occur in the string; a string with both
+   kinds is written as a parenthesised concatenation  (DQ a DQ + SQ DQ SQ + DQ b DQ)  of the
+   pieces between its double quotes. *)
+Definition dq : ascii := ascii_of_nat 34.
+Definition sq : ascii := ascii_of_nat 39.
+Definition bs : ascii := ascii_of_nat 92.
+Fixpoint has_char (c : ascii) (s : string) : bool :=
+  match s with
+  | EmptyString => false
+  | String a r => Ascii.eqb a c || has_char c r
+  end.
+(* str::split on the double quote *)
+Fixpoint split_dq (s : string) (cur : string) : list string :=
+  match s with
+  | EmptyString => [cur]
+  | String a r =>
+      if Ascii.eqb a dq then cur :: split_dq r "" else split_dq r (cur ++ String a "")
+  end.
+Fixpoint concat_ast (acc : expr) (l : list string) : expr :=
+  match l with
+  | [] => acc
+  | p :: r => concat_ast (EBin Add (EBin Add acc (EStr (String dq ""))) (EStr p)) r
+  end.
+Definition both_quotes (s : string) : bool := has_char dq s && has_char sq s.
+Definition str_to_ast (s : string) : expr :=
+  if both_quotes s then
+    match split_dq s "" with
+    | [] => EStr s
+    | p :: r => concat_ast (EStr p) r
+    end
+  else EStr s.
+
+(* is_valid_identifier: ASCII letter or underscore first, then letters, digits, underscores,
+   and not one of the twelve reserved words *)
+Definition is_alpha_ (c : ascii) : bool :=
+  let n := nat_of_ascii c in
+  (Nat.leb 65 n && Nat.leb n 90) || (Nat.leb 97 n && Nat.leb n 122) || Nat.eqb n 95.
+Definition is_alnum_ (c : ascii) : bool :=
+  let n := nat_of_ascii c in is_alpha_ c || (Nat.leb 48 n && Nat.leb n 57).
+Fixpoint all_chars (p : ascii -> bool) (s : string) : bool :=
+  match s with EmptyString => true | String a r => p a && all_chars p r end.
+Definition printer_reserved : list string :=
+  ["if"; "then"; "else"; "true"; "false"; "null"; "and"; "or"; "not"; "do"; "return"; "output"].
+Definition is_valid_identifier (s : string) : bool :=
+  match s with
+  | EmptyString => false
+  | String a r => negb (mem s printer_reserved) && is_alpha_ a && all_chars is_alnum_ r
+  end.
+
 Section Subst.
   Variable dofix : bool.
 
@@ -61,7 +111,17 @@ Section Subst.
   Fixpoint subst (m : smap) (e : expr) {struct e} : expr :=
     match e with
     | EId x => match rec_get m x with Some a => a | None => EId x end
-    | ENum _ | EStr _ | EBool _ | ENull | EInRef _ | EBuiltin _ => e
+    (* `#field` is `inputs.field` (repo fix 2a8e167 of F54, known/C05.json): with `inputs` inlined it is printed the
+       way that form is; a field spelled like a reserved word cannot follow `.` (`#if` parses, `{..}.if` does not)
+       and is printed as an index:
+         match scope.get("inputs") { Some(v) if is_valid_identifier(field) => "<literal of v>.field",
+                                     Some(v) => "<literal of v>[<string literal of field>]", None => "#field" } *)
+    | EInRef f =>
+        match rec_get m "inputs" with
+        | Some a => if is_valid_identifier f then EDot a f else EAccess a (str_to_ast f)
+        | None => e
+        end
+    | ENum _ | EStr _ | EBool _ | ENull | EBuiltin _ => e
     | EList items =>
         EList ((fix go (l : list (commented expr)) : list (commented expr) :=
                   match l with
@@ -122,38 +182,6 @@ Definition num_to_ast (nanfix : bool) (x : num) : expr :=
   | _ => if nsign x then EUn Negate (ENum (nneg x)) else ENum x
   end.
 
-(* String.  The grammar has no escape sequences: string = PUSH(dquote | squote) (!PEEK ANY)* POP.
-   Repaired emission: the quote character that does not occur in the string; a string with both
-   kinds is written as a parenthesised concatenation  (DQ a DQ + SQ DQ SQ + DQ b DQ)  of the
-   pieces between its double quotes. *)
-Definition dq : ascii := ascii_of_nat 34.
-Definition sq : ascii := ascii_of_nat 39.
-Definition bs : ascii := ascii_of_nat 92.
-Fixpoint has_char (c : ascii) (s : string) : bool :=
-  match s with
-  | EmptyString => false
-  | String a r => Ascii.eqb a c || has_char c r
-  end.
-(* str::split on the double quote *)
-Fixpoint split_dq (s : string) (cur : string) : list string :=
-  match s with
-  | EmptyString => [cur]
-  | String a r =>
-      if Ascii.eqb a dq then cur :: split_dq r "" else split_dq r (cur ++ String a "")
-  end.
-Fixpoint concat_ast (acc : expr) (l : list string) : expr :=
-  match l with
-  | [] => acc
-  | p :: r => concat_ast (EBin Add (EBin Add acc (EStr (String dq ""))) (EStr p)) r
-  end.
-Definition both_quotes (s : string) : bool := has_char dq s && has_char sq s.
-Definition str_to_ast (s : string) : expr :=
-  if both_quotes s then
-    match split_dq s "" with
-    | [] => EStr s
-    | p :: r => concat_ast (EStr p) r
-    end
-  else EStr s.
 (* a record key: bare identifier or string literal; with both quote kinds a computed key *)
 Definition key_to_rkey (k : string) : rkey :=
   if both_quotes k then KDyn (str_to_ast k) else KStatic k.
@@ -546,23 +574,6 @@ Fixpoint paren_lossy (e : expr) {struct e} : bool :=
 
 (* strings / record keys of captured values that the CURRENT emission escapes (F11) *)
 Definition needs_escape (s : string) : bool := has_char dq s || has_char bs s.
-(* is_valid_identifier: ASCII letter or underscore first, then letters, digits, underscores,
-   and not one of the twelve reserved words *)
-Definition is_alpha_ (c : ascii) : bool :=
-  let n := nat_of_ascii c in
-  (Nat.leb 65 n && Nat.leb n 90) || (Nat.leb 97 n && Nat.leb n 122) || Nat.eqb n 95.
-Definition is_alnum_ (c : ascii) : bool :=
-  let n := nat_of_ascii c in is_alpha_ c || (Nat.leb 48 n && Nat.leb n 57).
-Fixpoint all_chars (p : ascii -> bool) (s : string) : bool :=
-  match s with EmptyString => true | String a r => p a && all_chars p r end.
-Definition printer_reserved : list string :=
-  ["if"; "then"; "else"; "true"; "false"; "null"; "and"; "or"; "not"; "do"; "return"; "output"].
-Definition is_valid_identifier (s : string) : bool :=
-  match s with
-  | EmptyString => false
-  | String a r => negb (mem s printer_reserved) && is_alpha_ a && all_chars is_alnum_ r
-  end.
-
 Section Classes.
   (* over a function value and everything it captures (nested closures included) *)
   Fixpoint v_needs_escape (v : value) : bool :=
